@@ -120,10 +120,10 @@ def main():
         c = CHECKS[pid]
         checks.append({
             "property_id": pid,
-            "quick_cmd": "/venv/bin/python check.py --property %s --tier quick" % pid,
-            "thorough_cmd": "/venv/bin/python check.py --property %s --tier thorough" % pid,
+            "quick_cmd": "/venv/bin/python /verif/check.py --property %s --tier quick" % pid,
+            "thorough_cmd": "/venv/bin/python /verif/check.py --property %s --tier thorough" % pid,
             "evidence_file": "/verif/evidence/%s.json" % pid,
-            "replay_cmd_template": "/venv/bin/python check.py --replay {path}",
+            "replay_cmd_template": "/venv/bin/python /verif/check.py --replay {path}",
             "engine": c.get("engine", "tlc"),
             "level_claimed": {"category": c.get("category", "model_checking"), "text": c["text"], "design_ref": "DESIGN.md section " + c["design"]},
             "level_note": c["note"],
@@ -132,7 +132,7 @@ def main():
     fixed = json.load(open(os.path.join(ROOT, "known_findings.json")))["fixed"]
     m = {
         "version": 1,
-        "setup_cmd": "/venv/bin/python tools/setup_check.py",
+        "setup_cmd": "/venv/bin/python /verif/tools/setup_check.py",
         "hooks": {
             "guard": "PYSNARK_VERIF",
             "enable": "none needed: observation is through the backend interface (a recording backend module is placed in sys.modules before pysnark.runtime is imported); no hook commits exist",
